@@ -156,11 +156,20 @@ async def c20_case(backend, workers, seed, counters, nevents=40, only_ephemeral=
             for _, m in ok_frames(p):
                 if len(m) >= 3 and m[2] is True:
                     accepted[m[1]] = accepted.get(m[1], 0) + 1
-        counts0 = {c.name: dict() for c in subs}
-        for c in subs:
-            for _, m in event_frames(c, "s"):
-                eid = m[2].get("id") if isinstance(m[2], dict) else None
-                counts0[c.name][eid] = counts0[c.name].get(eid, 0) + 1
+        def count_all():
+            out = {c.name: dict() for c in subs}
+            for c in subs:
+                for _, m in event_frames(c, "s"):
+                    eid = m[2].get("id") if isinstance(m[2], dict) else None
+                    out[c.name][eid] = out[c.name].get(eid, 0) + 1
+            return out
+
+        counts0 = count_all()
+        if any(ref.match_any(ev, c.filters) == "MUST" and not counts0[c.name].get(ev["id"]) for ev in evs if accepted.get(ev["id"]) for c in subs):
+            # something seems to be missing: a loaded machine may just be slow - look again after a much longer silence
+            await e2e.settle(clients, quiet=5.0, timeout=60)
+            counts0 = count_all()
+            bump(counters, "e2e_recounts_after_longer_silence")
         for ev in evs:
             if not accepted.get(ev["id"]):
                 continue
@@ -1350,13 +1359,20 @@ async def c17_case(backend, workers, seed, counters):
             if backend == "lmdb":
                 round_ = [p for p in round_ if not p[0].startswith("ephemeral")]  # never stored there
             got = await stored_ids(q, [ev["id"] for _, ev, _, _ in round_])
+            for _retry in range(3):
+                if not any(must_go and ev["id"] in got for _, ev, must_go, _ in round_):
+                    break
+                # a loaded machine may run the 2 s collector late: look again before calling it a survivor
+                await asyncio.sleep(4.0)
+                got = await stored_ids(q, [ev["id"] for _, ev, _, _ in round_])
+                bump(counters, "e2e_collector_rechecks")
             for label, ev, must_go, w in round_:
                 bump(counters, "e2e_collector_judgements")
                 role = "the-collecting-worker" if w == main_pid else ("another-worker" if main_pid else "a-worker")
                 nontrivial.append(h(["e2e-c17", backend, label, role]))
                 if must_go and ev["id"] in got:
                     V("survived/%s/stored-through-%s" % (label, role),
-                      "%s event stored through worker %s is still returned after several collector passes (interval 2 s, 8 s waited; the collector runs in worker %s)" % (label, w, main_pid))
+                      "%s event stored through worker %s is still returned after several collector passes (interval 2 s, 20 s waited in all; the collector runs in worker %s)" % (label, w, main_pid))
                 if not must_go and ev["id"] not in got:
                     V("removed/%s" % label, "%s event stored through worker %s is gone after collector passes" % (label, w))
             plan_.extend(round_)
@@ -1744,26 +1760,37 @@ async def c08_case(backend, workers, seed, counters):
             return viols, nontrivial, inconcl
         gone = [mine[0], mine[1], old_v]
         stay = mine[2:] + theirs + [new_v, deletion]
-        for w, c in byw.items():
-            got = await served(c, [e["id"] for e in gone + stay])
-            bump(counters, "e2e_worker_readbacks")
-            nontrivial.append(h(["e2e-c08", backend, c is ws[0]]))
+
+        async def judge():
+            del viols[:]
+            for w, c in byw.items():
+                got = await served(c, [e["id"] for e in gone + stay])
+                bump(counters, "e2e_worker_readbacks")
+                nontrivial.append(h(["e2e-c08", backend, c is ws[0]]))
+                for e in gone:
+                    if e["id"] in got:
+                        V(("deleted-still-served/req" if e["kind"] == 1 else "superseded-still-served/req") + ("/other-worker" if c is not ws[0] else "/same-worker"),
+                          "worker %s still returns %s although %s through another connection" % (w, "alice's deleted event" if e["kind"] == 1 else "the superseded version", "her deletion was accepted" if e["kind"] == 1 else "a newer version was accepted"))
+                for e in stay:
+                    if e["id"] not in got:
+                        V("foreign-or-unreferenced-removed/req", "worker %s no longer returns event %s (kind %d of %s) that no accepted deletion of its author references" % (w, e["id"][:12], e["kind"], "bob" if e["pubkey"] == bob.pk else "alice"))
             for e in gone:
-                if e["id"] in got:
-                    V(("deleted-still-served/req" if e["kind"] == 1 else "superseded-still-served/req") + ("/other-worker" if c is not ws[0] else "/same-worker"),
-                      "worker %s still returns %s although %s through another connection" % (w, "alice's deleted event" if e["kind"] == 1 else "the superseded version", "her deletion was accepted" if e["kind"] == 1 else "a newer version was accepted"))
+                st = http_all(e["id"])
+                bump(counters, "e2e_http_readbacks")
+                if 200 in st:
+                    V("deleted-still-served/http" if e["kind"] == 1 else "superseded-still-served/http", "GET /e/%s answered %r after the %s (requests are spread over the worker processes)" % (e["id"][:12], sorted(map(str, st)), "author's deletion" if e["kind"] == 1 else "newer version"))
             for e in stay:
-                if e["id"] not in got:
-                    V("foreign-or-unreferenced-removed/req", "worker %s no longer returns event %s (kind %d of %s) that no accepted deletion of its author references" % (w, e["id"][:12], e["kind"], "bob" if e["pubkey"] == bob.pk else "alice"))
-        for e in gone:
-            st = http_all(e["id"])
-            bump(counters, "e2e_http_readbacks")
-            if 200 in st:
-                V("deleted-still-served/http" if e["kind"] == 1 else "superseded-still-served/http", "GET /e/%s answered %r after the %s (requests are spread over the worker processes)" % (e["id"][:12], sorted(map(str, st)), "author's deletion" if e["kind"] == 1 else "newer version"))
-        for e in stay:
-            st = http_all(e["id"], 4)
-            if st != {200}:
-                V("foreign-or-unreferenced-removed/http", "GET /e/%s answered %r for an event nothing removed" % (e["id"][:12], sorted(map(str, st))))
+                st = http_all(e["id"], 4)
+                if st != {200}:
+                    V("foreign-or-unreferenced-removed/http", "GET /e/%s answered %r for an event nothing removed" % (e["id"][:12], sorted(map(str, st))))
+
+        await judge()
+        if viols:
+            # the LMDB backend acknowledges before its writer thread has applied the event: on a loaded machine that may take a
+            # while - look once more, much later, before calling anything still served
+            await asyncio.sleep(6.0)
+            bump(counters, "e2e_rejudged_after_longer_wait")
+            await judge()
     finally:
         for c in conns:
             await c.close()
